@@ -412,6 +412,8 @@ class Tracer:
         self.phase_fault = None       # (round, phase name, exception)
         self.deep = True              # digest inputs before/after
         self._round = -1
+        self.relabel_script = None
+        self.relabel_log = []
 
     # ------------------------------------------------------------------
     def install(self):
@@ -463,6 +465,8 @@ class Tracer:
         self.pool_fault = task_fault
         self.phase_fault = phase_fault
         self._round = -1
+        self.relabel_script = None
+        self.relabel_log = []
 
     # ------------------------------------------------------------------ proxies
     def _phase_proxy(self, tag, orig):
@@ -482,7 +486,10 @@ class Tracer:
                 ev["faulted"] = True
                 raise self.phase_fault[2]
             try:
-                out = orig(*args, **kwargs)
+                if tag == "relabel" and self.relabel_script is not None:
+                    out = self._scripted_relabel(st, orig, args, kwargs)
+                else:
+                    out = orig(*args, **kwargs)
             except BaseException as e:
                 ev["raised"] = e
                 if st is not None and self.deep:
@@ -499,6 +506,21 @@ class Tracer:
             self.events.append(ev)
             return out
         return proxy
+
+    def _scripted_relabel(self, st, orig, args, kwargs):
+        """environment answer for the relabel phase: the real phase runs (so the model it returns is a
+        genuine one), then its labelling and cost are replaced by the next scripted ones - the main loop's
+        control decisions can then be explored over ALL label sequences, independently of the data"""
+        if not self.relabel_script:
+            raise HarnessError("relabel script exhausted")
+        labels = list(self.relabel_script.pop(0))
+        out = orig(*args, **kwargs)
+        new = out.shallow_copy()
+        new.clusters = [c.deep_copy() for c in out.clusters]
+        new.point_labels = labels
+        new.label_assignment_cost = float(1000 + len(self.relabel_log))
+        self.relabel_log.append(tuple(labels))
+        return new
 
     def _assign_proxy(self, orig):
         def proxy(*args, **kwargs):
